@@ -16,8 +16,9 @@ import (
 )
 
 // msizeS is the message size negotiated with the real server in directions
-// (b)/(c): room for a 65535-byte string plus the other fields.
-const msizeS = 1 << 17
+// (b)/(c): room for two 65535-byte strings (a 2-field deviation) plus the
+// other fields.
+const msizeS = 1 << 18
 
 var serverVersions = []int{0, 2, 3, 7}
 
